@@ -226,6 +226,723 @@ def regenerate_inventory():
     return inv, pres, lines, old != txt
 
 
+
+# ====================================================================================================================
+# 1. pools
+# ====================================================================================================================
+LONG = 4096
+NASTY = ["", "a", "9x", "a b", "é", "a\nb", "😀", "_", ":", "a:b", "le", "__name__", "\u0000", "a\u0000b", " ", "-", "$a", "Ａ", "٣", "a-b", "a.b",
+         "\u0301", "\ud7ff", "\U0010ffff", "\\", "\"", "a" * LONG, "é" * (LONG // 2), "a" * (LONG - 1) + "-", "x" * 255, "\n", "quantile", "a\\\né",
+         "😀" * 64, "\u00e9\\", "\\\u00e9", "\u00e9\n\u00e9", "\"\u00e9\"", "A_1", "le_", "_le"]
+GOOD_NAMES = ["a", "b", "c", "job", "_x", "A_1", "zone", "code", "m", "x" * 255, "a" * LONG]
+VALUES = ["", "v", "x y", "é", "😀", "\\", "\"", "\n", "a\\\né", "\u00e9\\", "\\\u00e9", "v" * LONG, "é" * (LONG // 2), "\u0000", "1", "2", "ab", "c", "a", "bc"]
+FLOATS = [f64(0.0), NZERO, f64(1.0), f64(-1.0), f64(0.5), f64(2.0), f64(1.0000000000000002), F(0x3fefffffffffffff), f64(10.0), f64(1e300), f64(-1e300),
+          f64(1e308), f64(1.7976931348623157e308), f64(5e-324), F(0x000fffffffffffff), F(0x8000000000000001), f64(2.2250738585072014e-308), PINF, NINF, NAN,
+          f64(0.1), f64(3.0), f64(1e-310), f64(1e16), f64(0.999), f64(1e-300), f64(-0.5), f64(4096.0)]
+COUNTS = [0, 0, 1, 1, 2, 3, 5, 10, 17, 100, 200]
+LONG_P = [0.03]          # probability of a 4096-element float list where one is possible (quick 0.03, thorough 0.15)
+
+
+def nasty(r, good=0.0):
+    if r.random() < good: return r.choice(GOOD_NAMES)
+    return r.choice(NASTY)
+
+
+def value(r):
+    return r.choice(VALUES)
+
+
+def fl(r):
+    k = r.random()
+    if k < 0.8: return r.choice(FLOATS)
+    return gens.nextafter_bits(r.choice(FLOATS), r.random() < 0.5)
+
+
+def increasing(n, start=-5.0, step=0.25):
+    return [f64(start + step * i) for i in range(n)]
+
+
+def bucket_list(r):
+    k = r.random()
+    if k < 0.08: return []
+    if k < 0.16: return [NAN]
+    if k < 0.22: return [f64(1.0), NAN]
+    if k < 0.28: return [f64(1.0), NAN, f64(0.5)]
+    if k < 0.34: return [PINF]
+    if k < 0.38: return [NINF, f64(0.0), PINF]
+    if k < 0.42: return [PINF, PINF]
+    if k < 0.46: return [f64(1.0), f64(1.0)]
+    if k < 0.50: return [f64(2.0), f64(1.0)]
+    if k < 0.54: return [f64(0.0), NZERO]
+    if k < 0.58: return [NZERO, f64(0.0)]
+    if k < 0.66:
+        # 4096 bounds: rare in the quick tier (every such list is 100 kB of case text), see LONG_P
+        n = LONG if r.random() < LONG_P[0] else r.choice([17, 64, 200])
+        j = r.random()
+        if j < 0.4: return increasing(n)
+        if j < 0.6: return increasing(n - 1) + [PINF]
+        if j < 0.8: b = increasing(n); b[-1] = b[-2]; return b
+        b = increasing(n); b[r.randrange(n)] = NAN; return b
+    if k < 0.71: return increasing(r.choice([2, 3, 17]))
+    if k < 0.74: return [F(1), F(2), F(3)]                       # subnormals, increasing
+    if k < 0.77: return [F(0x8000000000000002), F(0x8000000000000001), NZERO]
+    if k < 0.88: return gens.good_buckets(r)
+    return [fl(r) for _ in range(r.randint(1, 5))]
+
+
+def opts_nasty(r, good=0.6, nconst=(0, 2)):
+    name = nasty(r, good)
+    ns = nasty(r, 0.5) if r.random() < 0.15 else ""
+    sub = nasty(r, 0.5) if r.random() < 0.15 else ""
+    help_ = r.choice(["h", "h", "h", "", "help é", "h" * LONG, "\n", "\\"])
+    consts = [(nasty(r, 0.7), value(r)) for _ in range(r.randint(*nconst))]
+    if consts and r.random() < 0.15: consts.append((consts[0][0], value(r)))
+    if r.random() < 0.04: consts = [("c%d" % i, "v") for i in range(40)]
+    return mkopts(name, help_, ns, sub, consts)
+
+
+def opts_good(name="m", consts=()):
+    return mkopts(name, "h", "", "", list(consts))
+
+
+LONG_STRINGS = sorted(set(x for x in NASTY + GOOD_NAMES + VALUES + ["h" * LONG, "n" * LONG] if len(x) >= 255), key=len, reverse=True)
+
+
+def compact(term):
+    """replaces the literal code-point lists of the long pool strings by `repeat c n` expressions (same value, 1000x less text)"""
+    for x in LONG_STRINGS:
+        lit = c_str(x)
+        if lit not in term: continue
+        head = x.rstrip(x[0]) if False else None
+        c0 = x[0]
+        k = len(x) - len(x.lstrip(c0))
+        rest = x[k:]
+        expr = "(repeat %d %d%%nat%s)" % (ord(c0), k, (" ++ " + c_str(rest)) if rest else "")
+        term = term.replace(lit, expr)
+    return term
+
+
+# ====================================================================================================================
+# 2. sequential sweeps
+# ====================================================================================================================
+def g_ctor(r):
+    """constructors of every kind with names / help / labels from the nasty pool"""
+    s = Slots()
+    good = r.choice([0.0, 0.3, 0.6, 0.9])
+    for _ in range(r.randint(4, 9)):
+        kind = r.choice(["C", "G", "H", "CV", "GV", "HV", "P", "D", "D", "X"])
+        o = opts_nasty(r, good)
+        if kind == "D":
+            nv = r.choice([0, 0, 1, 2, 5, 40])
+            vars_ = [nasty(r, good) for _ in range(nv)] if nv < 40 else ["l%d" % i for i in range(40)]
+            s.emit("OpDesc", nasty(r, good), o["help"], vars_, o["consts"]); continue
+        if kind == "P":
+            s.emit("OpPulling", nasty(r, good), o["help"], fl(r)); continue
+        if kind == "X":
+            ds = [(nasty(r, 0.7), r.choice(["h", "h", ""]), [nasty(r, 0.8) for _ in range(r.randint(0, 2))], [(nasty(r, 0.8), value(r)) for _ in range(r.randint(0, 2))])
+                  for _ in range(r.randint(0, 3))]
+            s.emit("OpCustom", ds, []); continue
+        if kind in ("C", "G", "H") and r.random() < 0.15:
+            o["vars"] = [nasty(r, 0.8) for _ in range(r.randint(1, 3))]
+        if kind == "C": s.emit("OpCounter", r.choice(["NF", "NU"]), o)
+        elif kind == "G": s.emit("OpGauge", r.choice(["NF", "NI"]), o)
+        elif kind == "H": s.emit("OpHistogram", dict(opts=o, buckets=bucket_list(r) if r.random() < 0.5 else []))
+        else:
+            nv = r.choice([0, 1, 1, 2, 3, 5, 40])
+            vars_ = [nasty(r, max(good, 0.5)) for _ in range(nv)] if nv < 40 else ["l%d" % i for i in range(40)]
+            if kind == "CV": s.emit("OpCounterVec", r.choice(["NF", "NU"]), o, vars_)
+            elif kind == "GV": s.emit("OpGaugeVec", r.choice(["NF", "NI"]), o, vars_)
+            else: s.emit("OpHistVec", dict(opts=o, buckets=bucket_list(r) if r.random() < 0.4 else []), vars_)
+    return s.ops
+
+
+def label_request(r, declared):
+    """a positional request: the declared cardinality half of the time, else anything in 0..40"""
+    n = len(declared) if r.random() < 0.5 else r.choice([0, 1, 2, 3, 4, 5, 6, 7, 16, 39, 40])
+    return [value(r) for _ in range(n)]
+
+
+def map_request(r, declared):
+    k = r.random()
+    if k < 0.4:
+        kvs = [(n, value(r)) for n in declared]
+        r.shuffle(kvs)
+    elif k < 0.55:                       # a name missing / replaced by a wrong one
+        kvs = [(n, value(r)) for n in declared]
+        if kvs: kvs[r.randrange(len(kvs))] = (r.choice(["zz", "", "é", declared[0] + "_", "le"]), value(r))
+    elif k < 0.65:                       # too few
+        kvs = [(n, value(r)) for n in declared[:max(0, len(declared) - r.randint(1, 2))]]
+    elif k < 0.8:                        # too many
+        kvs = [(n, value(r)) for n in declared] + [("x%d" % i, value(r)) for i in range(r.choice([1, 2, 35]))]
+    elif k < 0.9:                        # a repeated key (HashMap insert overrides): one name short
+        kvs = [(n, value(r)) for n in declared]
+        if kvs: kvs.append((kvs[0][0], value(r)))
+    else:
+        kvs = [(nasty(r, 0.3), value(r)) for _ in range(r.choice([0, 1, 2, 5, 40]))]
+    return kvs
+
+
+def g_vec(r):
+    """vectors declaring 0..5 labels; positional and map requests / removals of cardinality 0..40; local vectors"""
+    s = Slots()
+    nd = r.choice([0, 1, 1, 2, 2, 3, 4, 5])
+    declared = r.sample(["a", "b", "c", "job", "zone", "_x", "A_1", "x" * 255], nd)
+    consts = [("k", "v")] if r.random() < 0.3 else []
+    kind = r.choice(["CV", "CV", "GV", "HV", "HV"])
+    o = opts_good("v", consts)
+    if kind == "CV": v = s.emit("OpCounterVec", r.choice(["NF", "NU"]), o, declared)
+    elif kind == "GV": v = s.emit("OpGaugeVec", r.choice(["NF", "NI"]), o, declared)
+    else:
+        b = r.random()
+        v = s.emit("OpHistVec", dict(opts=o, buckets=[] if b < 0.5 else gens.good_buckets(r) if b < 0.7 else bucket_list(r)), declared)
+    lv = None
+    if kind != "GV" and r.random() < 0.4: lv = s.emit("OpLocal", v)
+    for _ in range(r.randint(4, 10)):
+        k = r.random()
+        if k < 0.3: s.emit("OpWith", v, label_request(r, declared))
+        elif k < 0.55: s.emit("OpWithMap", v, map_request(r, declared))
+        elif k < 0.7: s.emit("OpRemove", v, label_request(r, declared))
+        elif k < 0.85: s.emit("OpRemoveMap", v, map_request(r, declared))
+        elif k < 0.95 and lv is not None: s.emit("OpLvRemove", lv, label_request(r, declared))
+        else: s.emit("OpReset", v)
+    return s.ops
+
+
+def g_hist(r):
+    """bucket lists of every shape on Histogram::with_opts and on the children of a HistogramVec"""
+    s = Slots()
+    for _ in range(r.randint(2, 4)):
+        s.emit("OpHistogram", dict(opts=opts_good("h"), buckets=bucket_list(r)))
+    v = s.emit("OpHistVec", dict(opts=opts_good("hv"), buckets=bucket_list(r)), ["a"])
+    s.emit("OpWith", v, ["x"]); s.emit("OpWithMap", v, [("a", "y")]); s.emit("OpWith", v, []); s.emit("OpRemove", v, ["x"])
+    return s.ops
+
+
+def g_helpers(r):
+    ops = []
+    for _ in range(r.randint(6, 12)):
+        count = LONG if r.random() < LONG_P[0] / 2 else r.choice(COUNTS)
+        if r.random() < 0.5: ops.append(("OpLinearBuckets", fl(r), fl(r), count))
+        else: ops.append(("OpExpBuckets", fl(r), fl(r), count))
+    return ops
+
+
+def g_registry(r):
+    """new_custom with (in)valid prefix / labels, register twice, unregister absent, clones, custom collectors"""
+    s = Slots()
+    regs = []
+    for _ in range(r.randint(1, 3)):
+        k = r.random()
+        prefix = None if k < 0.3 else nasty(r, 0.5)
+        k = r.random()
+        labels = None if k < 0.3 else [(nasty(r, 0.6), value(r)) for _ in range(r.choice([0, 1, 2, 3, 40]))]
+        if labels and len(labels) == 40: labels = [("l%d" % i, "v") for i in range(40)]
+        regs.append(s.emit("OpRegistry", prefix, labels))
+    regs.append(s.emit("OpRegistry", None, None))
+    if r.random() < 0.3: regs.append(s.emit("OpClone", regs[-1]))
+    ms = []
+    for _ in range(r.randint(1, 4)):
+        kind = r.choice(["C", "G", "H", "CV", "X", "P", "bad"])
+        nm = r.choice(["m", "n", "m", "q"])
+        if kind == "C": ms.append(s.emit("OpCounter", "NF", opts_good(nm)))
+        elif kind == "G": ms.append(s.emit("OpGauge", "NI", opts_good(nm, [("k", value(r))] if r.random() < 0.5 else [])))
+        elif kind == "H": ms.append(s.emit("OpHistogram", dict(opts=opts_good(nm), buckets=[])))
+        elif kind == "CV": ms.append(s.emit("OpCounterVec", "NU", opts_good(nm), ["a"]))
+        elif kind == "P": ms.append(s.emit("OpPulling", nm, "h", f64(1.0)))
+        elif kind == "bad": ms.append(s.emit("OpCounter", "NF", opts_good("9bad")))
+        else:
+            ds = [(r.choice(["m", "n", "x", "y"]), r.choice(["h", "h2"]), r.choice([[], ["a"]]), r.choice([[], [("k", "1")]])) for _ in range(r.randint(0, 3))]
+            ms.append(s.emit("OpCustom", ds, []))
+    if ms and r.random() < 0.3: ms.append(s.emit("OpClone", r.choice(ms)))
+    for _ in range(r.randint(3, 9)):
+        reg, m = r.choice(regs), r.choice(ms)
+        k = r.random()
+        if k < 0.55: s.emit("OpRegister", reg, m)
+        elif k < 0.9: s.emit("OpUnregister", reg, m)
+        else: s.emit("OpRegister", reg, reg)                 # not a collector: an ill-typed step on both sides
+    return s.ops
+
+
+SEQ_CORPUS = [
+    # one hand-written scenario per clause of the statement
+    [("OpDesc", "", "h", [], []), ("OpDesc", "a", "", [], []), ("OpDesc", "a" * LONG, "h", ["l%d" % i for i in range(40)], [("c%d" % i, "v") for i in range(40)]),
+     ("OpDesc", "é", "h", [], []), ("OpDesc", "a", "h", ["b", "b"], []), ("OpDesc", "a", "h", ["b"], [("b", "1")])],
+    [("OpCounterVec", "NF", opts_good("v"), ["a", "b"]), ("OpWith", 0, []), ("OpWith", 0, ["x"] * 40), ("OpWith", 0, ["x", "y"]),
+     ("OpWithMap", 0, [("a", "1")]), ("OpWithMap", 0, [("a", "1"), ("c", "2")]), ("OpWithMap", 0, [("x%d" % i, "v") for i in range(40)]),
+     ("OpRemove", 0, ["x"]), ("OpRemove", 0, ["x", "y"]), ("OpRemove", 0, ["x", "y"]), ("OpRemoveMap", 0, [("b", "y")]), ("OpRemoveMap", 0, [("b", "y"), ("a", "x")])],
+    [("OpHistogram", dict(opts=opts_good("h"), buckets=[NAN])), ("OpHistogram", dict(opts=opts_good("h"), buckets=[f64(1.0), f64(1.0)])),
+     ("OpHistogram", dict(opts=opts_good("h"), buckets=increasing(LONG))), ("OpHistogram", dict(opts=opts_good("h", [("le", "1")]), buckets=[])),
+     ("OpHistVec", dict(opts=opts_good("hv"), buckets=[f64(2.0), f64(1.0)]), ["a"]), ("OpWith", 4, ["x"]), ("OpWith", 4, [])],
+    [("OpLinearBuckets", f64(0.0), f64(1.0), 0), ("OpLinearBuckets", f64(0.0), f64(0.0), 3), ("OpLinearBuckets", f64(0.0), f64(-1.0), 3),
+     ("OpLinearBuckets", f64(0.0), NAN, 3), ("OpLinearBuckets", NAN, f64(1.0), 2), ("OpLinearBuckets", f64(1e308), f64(1e308), LONG),
+     ("OpExpBuckets", f64(1.0), f64(2.0), 0), ("OpExpBuckets", f64(0.0), f64(2.0), 3), ("OpExpBuckets", f64(1.0), f64(1.0), 3),
+     ("OpExpBuckets", f64(1.0), f64(0.5), 3), ("OpExpBuckets", f64(1.0), NAN, 3), ("OpExpBuckets", F(1), f64(2.0), LONG), ("OpExpBuckets", PINF, f64(2.0), 2)],
+    [("OpRegistry", "", None), ("OpRegistry", "9p", None), ("OpRegistry", None, [("bad-label", "x")]), ("OpRegistry", "p", [("z", "1")]),
+     ("OpCounter", "NF", opts_good("m")), ("OpRegister", 3, 4), ("OpRegister", 3, 4), ("OpUnregister", 3, 4), ("OpUnregister", 3, 4),
+     ("OpRegistry", None, None), ("OpUnregister", 5, 4), ("OpCounter", "NF", opts_good("m", [("z", "2")])), ("OpRegister", 3, 6)],
+]
+
+
+def gen_seq(r, tier):
+    n = 70 if tier == "quick" else 500
+    LONG_P[0] = 0.03 if tier == "quick" else 0.15
+    out = []
+    for _ in range(n):
+        out.append(g_ctor(r)); out.append(g_vec(r)); out.append(g_vec(r)); out.append(g_registry(r))
+    for _ in range(n // 2):
+        out.append(g_hist(r)); out.append(g_helpers(r))
+    return out
+
+
+# ====================================================================================================================
+# 3. encoder sweeps
+# ====================================================================================================================
+TYPES = ["COUNTER", "GAUGE", "SUMMARY", "UNTYPED", "HISTOGRAM"]
+ENTRIES = ["text", "utf8", "string", "pb"]
+PREFILLS = ["", "", "78", "c3a9", "23204845"]
+
+
+def short_value(r):
+    """label values for the encoder sweeps: the 4096-character ones only rarely (their escaped form is written out byte by byte in the case files)"""
+    v = value(r)
+    return v if (len(v) < 255 or r.random() < 0.03) else r.choice(["é\\", "\\é", "\n", "\"", "a\\\né", ""])
+
+
+def gen_metric(r, typ):
+    labels = [(r.choice(["a", "b", "le", "quantile", "", "é", "x" * 255 if r.random() < 0.1 else "x"]), short_value(r)) for _ in range(r.choice([0, 0, 1, 2, 3, 3, 12]))]
+    m = mk_metric(labels=labels, ts=r.choice([None, None, 0, 1, -1, 2 ** 63 - 1, -2 ** 63]))
+    k = r.random()
+    present = k < 0.6          # the payload of the family's type is present
+    other = k > 0.85           # a payload of another type instead / in addition
+    def payload(t):
+        if t == "COUNTER": m["counter"] = fl(r)
+        elif t == "GAUGE": m["gauge"] = fl(r)
+        elif t == "UNTYPED": m["untyped"] = fl(r)
+        elif t == "HISTOGRAM":
+            nb = r.choice([0, 1, 2, 3, 3, 16])
+            m["hist"] = dict(count=r.choice([0, 1, 2 ** 64 - 1, 2 ** 53 + 1]), sum=fl(r), b=[(r.choice([0, 1, 2 ** 64 - 1]), fl(r)) for _ in range(nb)])
+        else:
+            m["summary"] = dict(count=r.choice([0, 1, 2 ** 64 - 1]), sum=fl(r), q=[(fl(r), fl(r)) for _ in range(r.choice([0, 1, 3]))])
+    if present: payload(typ)
+    if other: payload(r.choice(TYPES))
+    return m
+
+
+def gen_family(r):
+    typ = r.choice(TYPES)
+    name = r.choice(["m", "m", "m", "", "9 bad", "é", "a_b:c", "m"]) if r.random() > 0.02 else "n" * LONG
+    help_ = r.choice(["h", "", "h\\n\n\"é", "é\\", "\\é", "\né"]) if r.random() > 0.02 else "h" * LONG
+    nm = r.choice([0, 1, 1, 1, 2, 3])
+    return mk_family(name, help_, typ, [gen_metric(r, typ) for _ in range(nm)])
+
+
+ENC_CORPUS = [
+    [mk_family("m", "h", "UNTYPED", [mk_metric(untyped=f64(1.0))])],                       # the repaired defect (3d1bf37)
+    [mk_family("a", "h", "COUNTER", [mk_metric(counter=f64(1.0))]), mk_family("m", "h", "UNTYPED", [mk_metric()])],
+    [mk_family("m", "h", "COUNTER", [])], [mk_family("", "h", "GAUGE", [mk_metric(gauge=f64(1.0))])],
+    [mk_family("m", "h", "SUMMARY", [mk_metric()])], [mk_family("m", "h", "HISTOGRAM", [mk_metric()])],
+    [mk_family("m", "é\\\né", "COUNTER", [mk_metric(labels=[("a", "é\\"), ("b", "\\é\"\n")], counter=NAN)])],
+    [],
+]
+
+
+def gen_enc(r, tier):
+    n = 220 if tier == "quick" else 2000
+    out = [dict(fams=f, entry=e, prefill="") for f in ENC_CORPUS for e in ENTRIES]
+    for _ in range(n):
+        k = r.random()
+        nf = r.choice([0, 1, 1, 1, 2, 3])
+        fams = [gen_family(r) for _ in range(nf)]
+        entry = r.choice(ENTRIES)
+        pre = r.choice(PREFILLS) if entry in ("text", "pb", "utf8") else ""
+        if entry == "utf8" and pre == "c3a9": pre = "c3a9"
+        out.append(dict(fams=fams, entry=entry, prefill=pre))
+    return out
+
+
+def e_line(sc, fail_after):
+    return "E %s %d %s %s" % (sc["entry"], fail_after, sc["prefill"] or "-", " ".join(w_list(w_family)(sc["fams"])))
+
+
+RE_ERES = re.compile(r"^(EOk \[[\d;]*\]|EErr \(?\w+(?: \d+ \d+\))? \[[\d;]*\]|EPanic)$")
+
+
+def eres_len(o, prefill_hex):
+    m = re.match(r"^(?:EOk|EErr \(?\w+(?: \d+ \d+\))?) \[([\d;]*)\]$", o or "")
+    if not m: return 0
+    n = len([x for x in m.group(1).split(";") if x])
+    return max(0, n - len(bytes.fromhex(prefill_hex)))
+
+
+def c_bytes_hex(h): return "[" + ";".join(str(b) for b in bytes.fromhex(h)) + "]"
+ENTRY_COQ = dict(text="EText", utf8="EUtf8", string="EString", pb="EPb")
+
+COQ_HDR_ENC = """Require Import PV.Base.Prelude PV.Base.F64 PV.Base.Utf8 PV.Model.Proto PV.Model.Desc PV.Model.Value PV.Model.Text PV.Model.Pb PV.Model.PanicSites.
+Require Import PV.Proofs.C17Facts PV.Spec.SpecC17.
+Open Scope N_scope.
+Set Printing Width 1000000.
+Set Printing Depth 1000000.
+(* the outcome the models of Model/PanicSites.v give (text: the decision function the model is proved equal to,
+   C17Facts.text_encode_decision), and the failing-writer model applied to the implementation's own unlimited output *)
+Definition model_kind (c : enc_case) : outcome :=
+  match c_entry c with EPb => pb_encode_o (map pb_of_family (c_fams c)) | _ => text_decision (c_fams c) end.
+Definition impl_kind (r : eres) : outcome := match r with EOk _ => OutOk | EErr e _ => OutErr e | EPanic => OutPanic O end.
+Definition enc_agrees (c : enc_case) : bool :=
+  outcome_eqb (model_kind c) (impl_kind (c_full c))
+  && match c_limited c with None => true | Some lim => eres_eqb lim (limit_eres (c_budget c) (c_prefill c) (c_full c)) end.
+"""
+
+
+def enc_case_coq(sc, full, budget, lim):
+    return "mkEnc %s %s %s %d (%s) %s" % (ENTRY_COQ[sc["entry"]], compact(c_list(c_family)(sc["fams"])), c_bytes_hex(sc["prefill"]), max(budget, 0),
+                                          full, "None" if lim is None else "(Some (%s))" % lim)
+
+
+def run_enc(binp, scs, r):
+    """two harness rounds: unlimited writer, then (entries that take a writer) a budget chosen around the produced length"""
+    full = run_harness(binp, [e_line(sc, -1) for sc in scs])
+    budgets, lim_lines, idx = [], [], []
+    for i, sc in enumerate(scs):
+        if sc["entry"] in ("text", "pb"):
+            n = eres_len(full[i], sc["prefill"])
+            b = sc.get("budget")
+            if b is None:
+                b = r.choice([0, 0, 1, max(0, n // 2), max(0, n - 1), n, n + 1, r.randint(0, n + 2)])
+                sc["budget"] = b
+            budgets.append(b); lim_lines.append(e_line(sc, b)); idx.append(i)
+        else:
+            budgets.append(-1)
+    lim_out = run_harness(binp, lim_lines)
+    lim = [None] * len(scs)
+    for j, i in enumerate(idx): lim[i] = lim_out[j] or "EPanic"
+    full = [o if (o and RE_ERES.match(o)) else "EPanic" for o in full]
+    lim = [None if scs[i]["entry"] not in ("text", "pb") else (l if (l and RE_ERES.match(l)) else "EPanic") for i, l in enumerate(lim)]
+    return full, budgets, lim
+
+
+def big_stack():
+    """long byte lists are deeply nested terms: give coqc a large stack"""
+    import resource
+    try:
+        soft, hard = resource.getrlimit(resource.RLIMIT_STACK)
+        want = 4 << 30
+        resource.setrlimit(resource.RLIMIT_STACK, (want if hard == resource.RLIM_INFINITY else min(want, hard), hard))
+    except (ValueError, OSError):
+        pass
+
+
+def eval_enc(tag, scs, full, budgets, lim):
+    """evaluates enc_agrees and spec_c17_enc in Coq; returns (corr_failing, spec_failing, errors)"""
+    d = os.path.join(BUILD, "cases", tag)
+    shutil.rmtree(d, ignore_errors=True); os.makedirs(d)
+    n = len(scs)
+    if not n: return [], [], []
+    nsh = min(NPROC, max(1, (n + 39) // 40))
+    per = (n + nsh - 1) // nsh
+    files = []
+    for k in range(nsh):
+        lo, hi = k * per, min(n, (k + 1) * per)
+        if lo >= hi: continue
+        path = os.path.join(d, "enc_%d.v" % k)
+        with open(path, "w") as f:
+            f.write(COQ_HDR_ENC)
+            f.write("Definition cases : list enc_case := [\n")
+            f.write(";\n".join(enc_case_coq(scs[i], full[i], budgets[i], lim[i]) for i in range(lo, hi)))
+            f.write("].\nEval vm_compute in failing enc_agrees %d cases.\nEval vm_compute in failing spec_c17_enc %d cases.\n" % (lo, lo))
+        files.append(path)
+    procs = [subprocess.Popen(["timeout", "900", "coqc", "-noglob", "-Q", COQ, "PV", p], stdout=subprocess.PIPE, stderr=subprocess.STDOUT, text=True,
+                              preexec_fn=big_stack) for p in files]
+    a, b, errors = [], [], []
+    for p, path in zip(procs, files):
+        out = p.communicate()[0]
+        if p.returncode != 0:
+            errors.append((path, out[-3000:])); continue
+        ls = parse_nlist(out)
+        if len(ls) != 2:
+            errors.append((path, "expected two answers\n" + out[-2000:])); continue
+        a += ls[0]; b += ls[1]
+    return sorted(a), sorted(b), errors
+
+
+# ====================================================================================================================
+# 4. the check
+# ====================================================================================================================
+CHK = "Definition chk (c : list op * list obs) : bool := match first_diff 0 (run world0 (fst c)) (snd c) with None => true | Some _ => false end."
+SPEC_EXTRA = "\nDefinition chk_spec (c : list op * list obs) : bool := spec_c17 (fst c) (snd c).\nEval vm_compute in failing chk_spec LO cases."
+
+
+class C17(SeqProp):
+    pid = "C17"
+    spec_import = "Require Import PV.Spec.SpecC17."
+    spec_fn = "spec_c17"
+    known_fn = None
+    rule = ("argument sweeps of every Result-returning API on a debug AND a release build of the harness: (1) Desc::new / Counter / Gauge / Histogram / "
+            "*Vec / PullingGauge / custom-collector descriptors with names, help and label names from a pool of nasty strings (empty, non-ASCII, "
+            "NUL, 4096 code points, valid-but-for-the-last-character, 40 labels); (2) vectors declaring 0-5 labels with positional requests and "
+            "removals of 0-40 values and label maps of 0-40 entries (right names, wrong names, missing names, repeated keys), also through local "
+            "vectors; (3) bucket lists with NaN, +-inf, equal / decreasing neighbours, +-0, subnormals, 4096 bounds, on histograms and on the children "
+            "of histogram vectors; (4) linear_buckets / exponential_buckets over a float pool (0, negative, NaN, +-inf, subnormal, huge) x counts "
+            "0..4096; (5) Registry::new_custom with (in)valid prefix / labels, register twice, unregister absent, clones; (6) MetricFamily lists of "
+            "every MetricType incl. UNTYPED and SUMMARY, without name, without metrics, with metrics lacking / mismatching the payload of their type, "
+            "through TextEncoder::encode / encode_utf8 / encode_to_string and ProtobufEncoder::encode with a writer that never fails and one that "
+            "fails after n bytes.  non-trivial = the scenario contains an Err answer (or, for encoders, an Err or a failing writer); distinct = "
+            "distinct scenario text")
+    assumptions = [
+        "the theorems cover the inventoried panic sites (coq/Model/PanicSites.v; the token inventory is re-read from the source on every run); panics that "
+        "live in the runtime (allocation failure, a poisoned std Mutex after a foreign panic, user callbacks such as Collector::desc or Write::write) are "
+        "covered by the sweep only",
+        "sizes are bounded: label maps below usize::MAX entries, strings below isize::MAX bytes, bucket-helper count * 8 <= isize::MAX (explicit hypotheses of "
+        "the theorems; the sweep uses at most 4096)",
+        "for linear_buckets / exponential_buckets 'invalid' means the documented error conditions (count = 0, width <= 0, start <= 0, factor <= 1 as IEEE "
+        "comparisons); NaN / infinite parameters are not refused by the helpers (proved as c17_ex_helpers_let_nan_through; the returned list is refused "
+        "by the histogram constructor)",
+        "the free functions register / unregister (default registry) are covered by the theorem on Registry::register / unregister and site 14 only; the "
+        "harness uses Registry values",
+        "the failing writer accepts n bytes through partial writes and then returns an io error; a Write implementation that panics is outside the property",
+    ]
+
+    # ---------------------------------------------------------------- generation
+    def gen(self, r, tier):
+        return [list(s) for s in SEQ_CORPUS] + gen_seq(r, tier)
+
+    def nontrivial(self, ops, o):
+        return ("Err" in o) or ("ODesc None" in o) or ("OBuckets None" in o)
+
+    # ---------------------------------------------------------------- one evaluation round of sequential scenarios
+    def eval_seq(self, tag, scs, bin_dbg, bin_rel):
+        lines = [scen_wire(s) for s in scs]
+        outs_d = run_harness(bin_dbg, lines)
+        outs_r = run_harness(bin_rel, lines)
+        terms = [compact(scen_coq(s)) for s in scs]
+        cases = [(t, o if o else "[OHung]") for t, o in zip(terms, outs_d)]
+        failing, spec_f, _, errors = compare_cases3(tag, cases, self.spec_import, CHK, SPEC_EXTRA)
+        # the release build: only the scenarios whose observations differ from the debug build's need another evaluation
+        diff = [i for i in range(len(scs)) if outs_r[i] != outs_d[i]]
+        failing_r, spec_r = [], []
+        if diff:
+            cases_r = [(terms[i], outs_r[i] if outs_r[i] else "[OHung]") for i in diff]
+            fr, sr, _, er = compare_cases3(tag + "_release", cases_r, self.spec_import, CHK, SPEC_EXTRA)
+            failing_r = [diff[j] for j in fr]; spec_r = [diff[j] for j in sr]; errors += er
+        return dict(lines=lines, outs_d=outs_d, outs_r=outs_r, terms=terms, corr=failing, spec=spec_f, corr_r=failing_r, spec_r=spec_r,
+                    diff=diff, errors=errors, missing=[i for i, o in enumerate(outs_d) if o is None] + [i for i, o in enumerate(outs_r) if o is None])
+
+    def eval_encoders(self, tag, scs, bin_dbg, bin_rel, r):
+        full_d, budgets, lim_d = run_enc(bin_dbg, scs, r)
+        full_r, _, lim_r = run_enc(bin_rel, scs, r)            # the budgets chosen in the first round are kept in the scenarios
+        corr, spec, errors = eval_enc(tag, scs, full_d, budgets, lim_d)
+        diff = [i for i in range(len(scs)) if (full_r[i], lim_r[i]) != (full_d[i], lim_d[i])]
+        corr_r, spec_r = [], []
+        if diff:
+            cr, sr, er = eval_enc(tag + "_release", [scs[i] for i in diff], [full_r[i] for i in diff], [budgets[i] for i in diff], [lim_r[i] for i in diff])
+            corr_r = [diff[j] for j in cr]; spec_r = [diff[j] for j in sr]; errors += er
+        return dict(full_d=full_d, lim_d=lim_d, full_r=full_r, lim_r=lim_r, budgets=budgets, corr=corr, spec=spec, corr_r=corr_r, spec_r=spec_r,
+                    diff=diff, errors=errors)
+
+    # ---------------------------------------------------------------- the check
+    def run(self, tier, seed, replay=None):
+        t0 = time.time()
+        pid = self.pid
+        print("[%s] tier=%s seed=%d" % (pid, tier, seed))
+        big_stack()          # inherited by every coqc this run starts
+        # 0. source scan -> coq/gen/PanicInventory.v
+        inv, pres, site_lines, changed = regenerate_inventory()
+        tokens = sum(sum(t) for _, t, _ in inv if t)
+        print("[%s] source scan: %d files, %d panic-capable tokens, %d/%d inventoried sites found%s" % (
+            pid, len(inv), tokens, sum(1 for p in pres if p[4] > 0), len(pres), " (gen/PanicInventory.v rewritten)" if changed else ""))
+        # 1. proofs
+        proof = check_props(pid, ["Spec/SpecC17.vo"])
+        print("[%s] proofs: make_ok=%s theorems=%d axioms=%s bad=%s forbidden=%d" % (
+            pid, proof["make_ok"], proof["obligations"], proof["axioms"], proof["bad_axioms"], len(proof["forbidden"])))
+        if not proof["make_ok"]:
+            print(proof["log"][-2500:])
+        # 2. harnesses
+        ok_d, out_d, bin_dbg = harness_build()
+        ok_r, out_r, bin_rel = harness_build(release=True) if ok_d else (False, "", None)
+        if not (ok_d and ok_r):
+            print((out_d if not ok_d else out_r)[-3000:])
+            print("[%s] ERROR: the harness does not build against the repository's working tree" % pid)
+            write_evidence(pid, tier, seed, dict(obligations=proof["obligations"], discharged=0, checker_cmd="make Props/%s.vo" % pid,
+                                                 trusted_base=TRUSTED, evaluations=0, distinct_nontrivial=0, rule=self.rule, samples=[],
+                                                 explanation="harness build failed"), self.assumptions, time.time() - t0, 0)
+            return 2
+        spec_vo = os.path.exists(os.path.join(COQ, "Spec", "SpecC17.vo")) and os.path.exists(os.path.join(COQ, "Proofs", "C17Facts.vo"))
+        r = random.Random(seed)
+        # 3. scenarios
+        if replay:
+            rp = json.load(open(replay))
+            scs = [de_json(rp["scenario_ops"])] if rp.get("scenario_ops") else []
+            encs = [de_json([rp["enc_scenario"]])[0]] if rp.get("enc_scenario") else []
+        else:
+            scs = self.gen(r, tier)
+            encs = gen_enc(r, tier)
+        # if the proofs are broken the Coq side cannot be evaluated against the models; the spec still can (it does not depend on them)
+        sq = self.eval_seq("C17", scs, bin_dbg, bin_rel) if spec_vo else None
+        en = self.eval_encoders("C17_enc", encs, bin_dbg, bin_rel, r) if spec_vo else None
+        if not spec_vo:
+            print("[%s] ERROR: Spec/SpecC17.vo or Proofs/C17Facts.vo was not built" % pid)
+            # fall back to a textual scan for panics so that a failing input is still reported
+            sq, en = self.textual(scs, encs, bin_dbg, bin_rel, r)
+        errors = sq["errors"] + en["errors"]
+        for p, e in errors[:2]: print("COQ ERROR in", p, e[-1500:])
+
+        nontriv = set()
+        for s, o in zip(scs, sq["outs_d"]):
+            if o and self.nontrivial(s, o): nontriv.add(hashlib.sha1(scen_wire(s).encode()).hexdigest())
+        for i, sc in enumerate(encs):
+            if en["full_d"][i].startswith("EErr") or (en["lim_d"][i] or "").startswith("EErr"):
+                nontriv.add(hashlib.sha1(json.dumps(to_json([sc]), sort_keys=True).encode()).hexdigest())
+
+        # 4. verdict
+        def dump_seq(i, kind, build, broken):
+            outs = sq["outs_r"] if build == "release" else sq["outs_d"]
+            detail = explain_case(pid, sq["terms"][i], outs[i] or "[OHung]", self.spec_import) if (i is not None and spec_vo) else ""
+            payload = dict(property=pid, tier=tier, seed=seed, kind=kind, build=build, scenario_index=i, scenario_ops=to_json(scs[i]),
+                           scenario_wire=sq["lines"][i][:20000], impl_obs=(outs[i] or "")[:20000], impl_obs_other_build=((sq["outs_d"] if build == "release" else sq["outs_r"])[i] or "")[:20000],
+                           model_vs_impl=detail[-4000:], broken=broken, explanation="replay with: python3 tools/check.py %s --replay <this file>" % pid)
+            return write_replay(pid, seed, i, payload)
+
+        def dump_enc(i, kind, build, broken):
+            payload = dict(property=pid, tier=tier, seed=seed, kind=kind, build=build, scenario_index=i, enc_scenario=to_json([encs[i]])[0],
+                           scenario_wire=[e_line(encs[i], -1)[:20000], e_line(encs[i], en["budgets"][i])[:20000]],
+                           impl_obs=dict(debug=[en["full_d"][i][:5000], (en["lim_d"][i] or "")[:5000]], release=[en["full_r"][i][:5000], (en["lim_r"][i] or "")[:5000]]),
+                           broken=broken, explanation="replay with: python3 tools/check.py %s --replay <this file>" % pid)
+            return write_replay(pid, seed, 100000 + i, payload)
+
+        rc = 0
+        proof_broken = not proof["ok"]
+        spec_hits = [("seq", i, "debug") for i in sq["spec"]] + [("seq", i, "release") for i in sq["spec_r"]] + \
+                    [("enc", i, "debug") for i in en["spec"]] + [("enc", i, "release") for i in en["spec_r"]]
+        corr_hits = [("seq", i, "debug") for i in sq["corr"]] + [("seq", i, "release") for i in sq["corr_r"]] + \
+                    [("enc", i, "debug") for i in en["corr"]] + [("enc", i, "release") for i in en["corr_r"]]
+        missing = sq.get("missing", [])
+        if spec_hits:
+            k, i, b = spec_hits[0]
+            what = "spec_c17 is false on the implementation's observations (a panic / hang, or invalid arguments answered with Ok)" if k == "seq" else \
+                   "spec_c17_enc is false on the implementation's answer (a panic, unsupported input not reported as Err, or the failing-writer law)"
+            p = dump_seq(i, "failing-input", b, what) if k == "seq" else dump_enc(i, "failing-input", b, what)
+            print("VIOLATION property=%s replay=%s" % (pid, p)); rc = 1
+        elif corr_hits or proof_broken or missing:
+            found = None
+            if not replay and spec_vo:
+                found = self.search17(bin_dbg, bin_rel, seed, tier)
+            if found:
+                p = write_replay(pid, seed, 0, found)
+                print("VIOLATION property=%s replay=%s" % (pid, p)); rc = 1
+            else:
+                if corr_hits:
+                    k, i, b = corr_hits[0]
+                    what = "correspondence differs on this scenario (%s build): %s" % (b, "World.run vs the implementation's observations" if k == "seq" else
+                                                                                     "outcome model of Model/PanicSites.v / failing-writer model vs the implementation's answer")
+                    p = dump_seq(i, "no-failing-input-found", b, what) if k == "seq" else dump_enc(i, "no-failing-input-found", b, what)
+                elif missing:
+                    p = dump_seq(missing[0], "no-failing-input-found", "debug", "the implementation produced no observation for this scenario (crash / hang)")
+                else:
+                    inv_diff = self.inventory_diff(inv, pres)
+                    payload = dict(property=pid, tier=tier, seed=seed, kind="no-failing-input-found", scenario_ops=None,
+                                   broken="proof obligation no longer checks: %s; bad axioms %s; forbidden %s" % (proof.get("failed_at"), proof["bad_axioms"], proof["forbidden"][:3]),
+                                   inventory_difference=inv_diff,
+                                   explanation="the panic-token inventory of the source differs from coq/Model/PanicSites.v (or another obligation broke); "
+                                               "the sweep found no input that panics or is answered wrongly")
+                    p = write_replay(pid, seed, 0, payload)
+                print("VIOLATION property=%s replay=%s no-failing-input-found" % (pid, p)); rc = 1
+        if errors and rc == 0:
+            print("[%s] ERROR: Coq could not evaluate some case files" % pid)
+            rc = 2
+        n_eval = 2 * len(scs) + sum(2 if l is None else 4 for l in en["lim_d"])
+        dist = self.dist(scs, sq["outs_d"])
+        dist["encoder"] = self.enc_dist(encs, en)
+        dist["release_differs_from_debug"] = dict(seq=len(sq["diff"]), enc=len(en["diff"]))
+        cov = dict(obligations=proof["obligations"], discharged=proof["discharged"],
+                   checker_cmd="make -C coq Props/%s.vo Spec/SpecC17.vo (coqc 8.16.1, full .vo; gen/PanicInventory.v regenerated from the source first) + Print Assumptions allowlist + forbidden-word scan" % pid,
+                   trusted_base=TRUSTED + ["tools/p_C17.py source scanner (token counting per function)",
+                                           "axioms used: %s" % (", ".join(proof["axioms"]) or "none (closed under the global context)")],
+                   theorems=proof["theorems"], evaluations=n_eval, scenarios=dict(seq=len(scs), enc=len(encs)), distinct_nontrivial=len(nontriv), rule=self.rule,
+                   samples=[sq["lines"][i][:600] + " => " + (sq["outs_d"][i] or "")[:600] for i in range(min(3, len(scs)))] +
+                           [e_line(encs[i], en["budgets"][i])[:400] + " => " + (en["lim_d"][i] or en["full_d"][i])[:300] for i in range(min(3, len(encs)))],
+                   traces_validated_against_impl=len(scs) + len(encs) - len(set(i for k, i, b in corr_hits)) - len(missing),
+                   correspondence_mismatches=len(corr_hits), spec_failures=len(spec_hits), known_finding_cases=0,
+                   source_inventory=dict(files=len(inv), tokens=tokens, sites_listed=len(pres), sites_found=sum(1 for p in pres if p[4] > 0),
+                                         site_lines={str(sid): w for sid, w in site_lines}),
+                   builds=["debug (overflow checks on)", "release"], input_distribution=dist, exhaustive=False)
+        write_evidence(pid, tier, seed, cov, self.assumptions, time.time() - t0, 1 if rc == 1 else 0)
+        print("[%s] scenarios=%d+%d runs=%d nontrivial=%d mismatches=%d spec_failures=%d release_differs=%d+%d wall=%.1fs rc=%d" % (
+            pid, len(scs), len(encs), n_eval, len(nontriv), len(corr_hits), len(spec_hits), len(sq["diff"]), len(en["diff"]), time.time() - t0, rc))
+        return rc
+
+    # ---------------------------------------------------------------- helpers of the verdict
+    def enc_dist(self, encs, en):
+        c = collections.Counter()
+        for i, sc in enumerate(encs):
+            c["entry " + sc["entry"]] += 1
+            c["full " + en["full_d"][i].split(" [")[0]] += 1
+            if en["lim_d"][i] is not None: c["limited " + en["lim_d"][i].split(" [")[0]] += 1
+            for f in sc["fams"]:
+                c["type " + f["type"]] += 1
+                if not f["name"]: c["no name"] += 1
+                if not f["metrics"]: c["no metrics"] += 1
+                for m in f["metrics"]:
+                    key = dict(COUNTER="counter", GAUGE="gauge", UNTYPED="untyped", HISTOGRAM="hist", SUMMARY="summary")[f["type"]]
+                    if m[key] is None: c["metric lacks the payload of its type"] += 1
+        return dict(c)
+
+    def inventory_diff(self, inv, pres):
+        """what the scanner saw that the committed model inventory does not expect (best effort: compares with the text of PanicSites.v)"""
+        try:
+            txt = open(os.path.join(COQ, "Model", "PanicSites.v")).read()
+        except OSError:
+            return None
+        out = []
+        for f, total, fns in inv:
+            m = re.search(r'\("%s",\s*\[([\d;]*)\],\s*\[(.*?)\]\);?\n' % re.escape(f), txt, re.S)
+            exp_total = [int(x) for x in m.group(1).split(";")] if m else None
+            if total != exp_total:
+                out.append(dict(file=f, tokens_now=total, tokens_expected=exp_total, functions_now=fns))
+        for sid, f, fn, sn, n in pres:
+            m = re.search(r'mkSite %d "[^"]*" \d+ "[^"]*" \w+ \w+ "(?:[^"]|"")*" (\d+)' % sid, txt)
+            if m and int(m.group(1)) != n:
+                out.append(dict(site=sid, file=f, function=fn, snippet=sn, occurrences_now=n, expected=int(m.group(1))))
+        return out
+
+    def textual(self, scs, encs, bin_dbg, bin_rel, r):
+        """without the compiled spec: run everything and flag panics / hangs by text (used only when the Coq side does not build)"""
+        lines = [scen_wire(s) for s in scs]
+        od, orr = run_harness(bin_dbg, lines), run_harness(bin_rel, lines)
+        bad = lambda o: (o is None) or ("OPanic" in o) or ("OHung" in o)
+        sq = dict(lines=lines, outs_d=od, outs_r=orr, terms=[""] * len(scs), corr=[], spec=[i for i, o in enumerate(od) if bad(o)],
+                  corr_r=[], spec_r=[i for i, o in enumerate(orr) if bad(o)], diff=[], errors=[], missing=[])
+        fd, budgets, ld = run_enc(bin_dbg, encs, r)
+        fr, _, lr = run_enc(bin_rel, encs, r)
+        en = dict(full_d=fd, lim_d=ld, full_r=fr, lim_r=lr, budgets=budgets, corr=[], corr_r=[], diff=[], errors=[],
+                  spec=[i for i in range(len(encs)) if fd[i] == "EPanic" or ld[i] == "EPanic"],
+                  spec_r=[i for i in range(len(encs)) if fr[i] == "EPanic" or lr[i] == "EPanic"])
+        return sq, en
+
+    def search17(self, bin_dbg, bin_rel, seed, tier, budget_s=60):
+        """looks for an input on which the executable statements fail on the implementation (both builds, both scenario kinds)"""
+        t0 = time.time()
+        k = 0
+        while time.time() - t0 < budget_s:
+            k += 1
+            r = random.Random(seed * 1000 + k)
+            scs = gen_seq(r, "quick")
+            sq = self.eval_seq("C17_search", scs, bin_dbg, bin_rel)
+            hits = [(i, "debug") for i in sq["spec"]] + [(i, "release") for i in sq["spec_r"]]
+            if hits:
+                i, b = hits[0]
+                return dict(property=self.pid, tier=tier, seed=seed, kind="failing-input", build=b, scenario_ops=to_json(scs[i]), scenario_wire=sq["lines"][i][:20000],
+                            impl_obs=((sq["outs_r"] if b == "release" else sq["outs_d"])[i] or "")[:20000],
+                            broken="spec_c17 false on the implementation (found by widened search, round %d)" % k)
+            encs = gen_enc(r, "quick")
+            en = self.eval_encoders("C17_enc_search", encs, bin_dbg, bin_rel, r)
+            hits = [(i, "debug") for i in en["spec"]] + [(i, "release") for i in en["spec_r"]]
+            if hits:
+                i, b = hits[0]
+                return dict(property=self.pid, tier=tier, seed=seed, kind="failing-input", build=b, enc_scenario=to_json([encs[i]])[0],
+                            scenario_wire=[e_line(encs[i], -1)[:20000]], impl_obs=[en["full_d"][i][:5000], en["full_r"][i][:5000]],
+                            broken="spec_c17_enc false on the implementation (found by widened search, round %d)" % k)
+        return None
+
+
 if __name__ == "__main__":
     inv, pres, lines, changed = regenerate_inventory()
     print("regenerated" if changed else "unchanged", GEN_PATH)
